@@ -235,6 +235,13 @@ _EFFN = {'C01': 'handleCacheHit', 'C02': 'handleCacheHit and HandleValidationRes
 for _pid, _w in _EFFN.items():
     CLAIMS[_pid]['text'] += _EFF.replace('Cxx', _pid) % _w
 
+for _pid, _t in {'C07': 'a reference whose entry was removed behind the cache\'s back (two variants, one entry deleted, POST: the other variant and the index must be gone)',
+                 'C09': 'every URL length 150..340 over the real fscache backend, plain and encrypted, GET / GET / new handle / GET: the second and third must be HIT',
+                 'C17': 'an encrypted transport on a directory filled without encryption must miss; the file of a key replaced wholesale by plain text must be rejected',
+                 'C19': 'a selecting field sent on several lines across write-backs of the selected entry: keys counted after every request, none left after a POST'}.items():
+    CLAIMS[_pid]['text'] += ' Engine scenario (harness/scenario_test.go, real transport, real backends): ' + _t + '.'
+CLAIMS['C11']['text'] += ' Engine realclock: the Age field of an answer from the store whose entry was received with a saturating Age (real clock, any staleness allowed) is at least 2^31.'
+
 for _pid in ('C07', 'C19'):
     CLAIMS[_pid]['text'] += (' %s_source_invalidation: InvalidateCache and invalidateLocationHeaders (which keys are deleted, in which order, after which reads of the store, none twice) '
                              'are re-derived from internal/cacheinvalidator.go by translate/inval.go before every build and proved equal up to peq to invalidate_cache (Proofs/TieInval.v).' % _pid)
